@@ -192,6 +192,11 @@ static std::vector<Instance> instances(const std::string &tier) {
 	// fired and only then leaves: its acknowledgements are the only link between its writes and the callback
 	add("Q9-worker-stays-online", B, Script{{{{ONLINE, 0}, {SET, 0}, {WAIT, 1}, {AWAIT, 0}, {RUN_UNTIL_FIRED, 0}, {SET, 2}, {OFFLINE, 0}}, {{WAIT, 0}, {ONLINE, 0}, {SET, 1}, {WRITE, 0}, {QS_UNTIL, 2}, {WRITE, 1}, {OFFLINE, 0}}}});
 	add("Q10-barrier-worker-stays-online", B, Script{{{{ONLINE, 0}, {SET, 0}, {WAIT, 1}, {BARRIER, 0}, {SET, 2}, {OFFLINE, 0}}, {{WAIT, 0}, {ONLINE, 0}, {SET, 1}, {WRITE, 0}, {QS_UNTIL, 2}, {OFFLINE, 0}}}});
+	// Q11: an older barrier is pending (so the period counter keeps advancing) while two agents are inside
+	// await_barrier at the same time and read different period counters: the desired-counter CAS of one
+	// of them loses and has to be retried
+	add("Q11-concurrent-await-barriers", B + 1, Script{{{{ONLINE, 0}, {AWAIT, 0}, {SET, 0}, {WAIT, 1}, {QS, 0}, {SET, 3}, {WAIT, 2}, {QS, 0}, {AWAIT, 1}, {RUN_UNTIL_FIRED, 0}, {OFFLINE, 0}},
+		{{WAIT, 0}, {ONLINE, 0}, {SET, 1}, {WAIT, 3}, {QS, 0}, {SET, 2}, {AWAIT, 0}, {RUN_UNTIL_FIRED, 0}, {OFFLINE, 0}}}});
 	if(th) {
 		add("Q6-three-agents", 2, Script{{R, W, {{ONLINE, 0}, {WRITE, 0}, {QS, 0}, {OFFLINE, 0}}}});
 		add("Q7-two-barriers-one-agent", 2, Script{{{{ONLINE, 0}, {AWAIT, 0}, {QS, 0}, {AWAIT, 1}, {RUN_UNTIL_FIRED, 0}, {OFFLINE, 0}}, W}});
